@@ -3,6 +3,8 @@
 From WC Require Import Str Spec.
 From WC.Gen Require Import Posix.
 From WC.Proofs Require Import PosixLemmas.
+(* the committed snapshot of the regex source texts (RE_POSIX) the class scanner of the parser model was written for; a changed text breaks this import *)
+From WC.Proofs Require Pinned_wcparse_posix.
 Open Scope N_scope.
 
 (* bracket expressions: every POSIX class row the parser consults in posix.py (regenerated on each run) is the
